@@ -1,7 +1,10 @@
 SPECIFICATION Spec
+CONSTANT StickySw = FALSE
 CONSTANT ExtMarker = TRUE
 INVARIANT InvReply
 INVARIANT InvSwitches
 INVARIANT InvSecond
+INVARIANT InvSecondReply
+INVARIANT InvSecondSwitches
 INVARIANT ExportCases
 CHECK_DEADLOCK FALSE
